@@ -741,18 +741,38 @@ func applyDamage(b []byte, d Damage) []byte {
 	return out
 }
 
+func nlit(x int) string { return fmt.Sprintf("%d%%N", x) }
+
 func (d Damage) term() string {
 	switch d.K {
 	case "flip":
-		return vf.App("DFlip", vf.Nat(d.Pos))
+		return vf.App("DFlip", nlit(d.Pos))
 	case "trunc":
-		return vf.App("DTrunc", vf.Nat(d.Pos))
+		return vf.App("DTrunc", nlit(d.Pos))
 	}
 	xs := make([]string, len(d.Xors))
 	for i, x := range d.Xors {
 		xs[i] = fmt.Sprintf("%d", x)
 	}
-	return vf.App("DBurst", vf.Nat(d.Pos), "("+vf.List(xs)+")%N")
+	return vf.App("DBurst", nlit(d.Pos), "("+vf.List(xs)+")%N")
+}
+
+// observed result lists of damage cases repeat a lot (the same correct prefix,
+// the same error): they are defined once in the prelude
+var obsDefs []string
+var obsIndex = map[string]int{}
+
+func shareObs(term string) string {
+	if len(term) < 40 {
+		return term
+	}
+	i, ok := obsIndex[term]
+	if !ok {
+		i = len(obsDefs)
+		obsIndex[term] = i
+		obsDefs = append(obsDefs, term)
+	}
+	return fmt.Sprintf("obs_%d", i)
 }
 
 // batchEnds returns the byte offset at which each batch ends.
@@ -859,9 +879,21 @@ func damageCase(s *streamInfo, d Damage, dests []int) (vf.Case, string) {
 	for keep < len(otoks) && keep < len(s.toks) && otoks[keep].same(s.toks[keep]) {
 		keep++
 	}
-	extra := make([]string, 0, len(otoks)-keep)
-	for _, t := range otoks[keep:] {
-		extra = append(extra, vf.Tuple(t.term(), vf.Nat(t.Used)))
+	// when the oracle read the damaged stream to its end, its last entries are usually
+	// those of the original script again: refer to them instead of repeating them
+	tail := 0
+	if term == "SIoEOF" {
+		for tail < len(otoks)-keep && tail < len(s.toks)-keep && otoks[len(otoks)-1-tail].same(s.toks[len(s.toks)-1-tail]) {
+			tail++
+		}
+	}
+	resume := "None"
+	if tail > 0 {
+		resume = vf.Some(nlit(len(s.toks) - tail))
+	}
+	extra := make([]string, 0, len(otoks)-keep-tail)
+	for _, t := range otoks[keep : len(otoks)-tail] {
+		extra = append(extra, vf.Tuple(t.term(), nlit(t.Used)))
 	}
 	max := totalRows(s.batches) + len(s.batches) + 3
 	used, res, crash, note := decodeGuarded(dam, s.sch, dests, max)
@@ -874,7 +906,7 @@ func damageCase(s *streamInfo, d Damage, dests []int) (vf.Case, string) {
 	if cr == "" {
 		cr = "ONone"
 	}
-	tm := vf.App("CDamage", s.ref(), d.term(), vf.Nat(keep), vf.List(extra), term, vf.NatList(used), resultsTerm(res), cr)
+	tm := vf.App("CDamage", s.ref(), d.term(), nlit(keep), vf.List(extra), resume, term, vf.NatList(used), shareObs(resultsTerm(res)), cr)
 	outcome, sig := classify(s, d, res, crash)
 	obs := fmt.Sprintf("%s oracle=%s@tok%d last=%s %s", outcome, term, len(otoks), lastOf(res), note)
 	for _, r := range res {
@@ -997,9 +1029,12 @@ func main() {
 		if thorough {
 			gridSchemas = schemas
 		}
-		for _, sch := range gridSchemas {
-			for _, bn := range gridBatch {
-				for _, dn := range gridDest {
+		for si, sch := range gridSchemas {
+			for bi, bn := range gridBatch {
+				for di, dn := range gridDest {
+					if !thorough && si > 0 && (bi+di)%3 != 0 {
+						continue // quick tier: the full grid on the first signature, a third of it on the others
+					}
 					// the grid batch between two small ones, so that buffering state is carried over
 					bs := []Batch{genBatch(gr, sch, gr.Range(0, 2)), genBatch(gr, sch, bn), genBatch(gr, sch, gr.Range(1, 3))}
 					out.Add(roundCase(buildStream(sch, bs), []int{dn}))
@@ -1136,6 +1171,9 @@ func main() {
 	var pre strings.Builder
 	for _, s := range shared {
 		fmt.Fprintf(&pre, "Definition %s : stream := %s.\n", s.name, s.def)
+	}
+	for i, o := range obsDefs {
+		fmt.Fprintf(&pre, "Definition obs_%d : list rres := %s.\n", i, o)
 	}
 	out.Prelude = pre.String()
 	if err := out.Write(opts.Out, opts); err != nil {
